@@ -7,6 +7,7 @@ to enable fine-grained incremental reprocessing of changes.
 from __future__ import annotations
 
 import argparse
+import inspect
 import io
 import json
 import os
@@ -260,7 +261,7 @@ class Server:
                         send(server, resp)
                     except OSError:
                         pass  # Maybe the client hung up
-                    if command == "stop":
+                    if command == "stop" and "error" not in resp:
                         reset_global_state()
                         sys.exit(0)
         finally:
@@ -292,8 +293,14 @@ class Server:
         else:
             if command not in {"check", "recheck", "run"}:
                 # Only the above commands use some error formatting.
-                del data["is_tty"]
-                del data["terminal_width"]
+                data.pop("is_tty", None)
+                data.pop("terminal_width", None)
+            try:
+                inspect.signature(method).bind(self, **data)
+            except TypeError as err:
+                # A request with missing or unexpected arguments is the client's mistake,
+                # not a daemon crash.
+                return {"error": f"Bad arguments for command '{command}': {err}"}
             ret = method(self, **data)
             assert isinstance(ret, dict)
             return ret
